@@ -66,7 +66,29 @@ pub fn mutate(ctx: &mut Ctx, name: &str, w: &Wr) -> Mutated {
     if n == 0 {
         return Mutated { bytes, after: After::Nothing, kind: "none", desc: "empty".into() };
     }
-    let kind = ctx.choose("mut_kind", 12);
+    let kind = ctx.choose("mut_kind", 13);
+    if kind == 12 {
+        // the length of one BER/DER element re-encoded in a hostile form (C05: connect response; C07: TSRequest)
+        let start = if w.fields.first().map(|f| f.name.starts_with("der.")).unwrap_or(false) {
+            Some(0)
+        } else {
+            w.fields.iter().find(|f| f.name == "cr.tag0").map(|f| f.off)
+        };
+        if let Some(start) = start {
+            if let Some((attacked, desc)) = tlv_length_attack(ctx, &bytes[start..]) {
+                let mut out = bytes[..start].to_vec();
+                out.extend_from_slice(&attacked);
+                if start >= 4 && out[0] == 3 && out.len() <= 0xffff && ctx.chance("tlv_fix_tpkt", 3, 4) {
+                    out[2] = (out.len() >> 8) as u8;
+                    out[3] = out.len() as u8;
+                }
+                return Mutated { bytes: out, after: After::Nothing, kind: "tlv_length", desc: format!("{} {}", name, desc) };
+            }
+        }
+        let bit = ctx.choose("mut_bit", (n * 8) as u64) as usize;
+        bytes[bit / 8] ^= 1 << (bit % 8);
+        return Mutated { bytes, after: After::Nothing, kind: "bitflip", desc: format!("{} bit {}", name, bit) };
+    }
     match kind {
         0 | 1 | 2 | 3 | 4 => {
             // set one field (numeric field, or a byte inside an opaque field)
@@ -145,6 +167,130 @@ pub fn mutate(ctx: &mut Ctx, name: &str, w: &Wr) -> Mutated {
             }
         }
     }
+}
+
+// ---------------------------------------------------------------------------------------- BER/DER lengths
+
+#[derive(Clone)]
+struct Tlv {
+    ident: Vec<u8>,
+    len_octets: Vec<u8>,
+    children: Option<Vec<Tlv>>,
+    leaf: Vec<u8>,
+}
+
+fn parse_tlvs(data: &[u8], depth: usize) -> Option<Vec<Tlv>> {
+    let mut out = Vec::new();
+    let mut pos = 0;
+    while pos < data.len() {
+        let t0 = pos;
+        let first = data[pos];
+        pos += 1;
+        if first & 0x1f == 0x1f {
+            while pos < data.len() && data[pos] & 0x80 != 0 { pos += 1; }
+            pos += 1;
+        }
+        if pos >= data.len() { return None; }
+        let ident = data[t0..pos].to_vec();
+        let l0 = data[pos];
+        let lstart = pos;
+        pos += 1;
+        let len = if l0 & 0x80 == 0 { l0 as usize } else {
+            let n = (l0 & 0x7f) as usize;
+            if n == 0 || n > 4 || pos + n > data.len() { return None; }
+            let mut v = 0usize;
+            for i in 0..n { v = (v << 8) | data[pos + i] as usize; }
+            pos += n;
+            v
+        };
+        let len_octets = data[lstart..pos].to_vec();
+        if pos + len > data.len() { return None; }
+        let body = &data[pos..pos + len];
+        pos += len;
+        let children = if first & 0x20 != 0 && depth < 12 { parse_tlvs(body, depth + 1) } else { None };
+        let leaf = if children.is_some() { Vec::new() } else { body.to_vec() };
+        out.push(Tlv { ident, len_octets, children, leaf });
+    }
+    Some(out)
+}
+
+fn count_tlvs(nodes: &[Tlv]) -> usize {
+    nodes.iter().map(|n| 1 + n.children.as_ref().map(|c| count_tlvs(c)).unwrap_or(0)).sum()
+}
+
+fn minimal_len(n: usize) -> Vec<u8> {
+    if n < 0x80 { vec![n as u8] } else if n < 0x100 { vec![0x81, n as u8] } else if n < 0x10000 { vec![0x82, (n >> 8) as u8, n as u8] } else { vec![0x83, (n >> 16) as u8, (n >> 8) as u8, n as u8] }
+}
+
+/// serialises the forest; the element number `target` (pre-order) gets `hostile` as its length octets; with `fixup`
+/// the lengths of its ancestors are recomputed so that the hostile header is exactly where a parser expects one
+fn serialise_tlvs(nodes: &[Tlv], target: usize, hostile: &[u8], fixup: bool, counter: &mut usize, real_len: &mut usize) -> Vec<u8> {
+    let mut out = Vec::new();
+    for n in nodes {
+        let me = *counter;
+        *counter += 1;
+        let content = match &n.children {
+            Some(c) => serialise_tlvs(c, target, hostile, fixup, counter, real_len),
+            None => n.leaf.clone(),
+        };
+        out.extend_from_slice(&n.ident);
+        if me == target {
+            *real_len = content.len();
+            out.extend_from_slice(hostile);
+        } else {
+            let orig_len = {
+                let l = &n.len_octets;
+                if l[0] & 0x80 == 0 { l[0] as usize } else { l[1..].iter().fold(0usize, |a, b| (a << 8) | *b as usize) }
+            };
+            if !fixup || orig_len == content.len() { out.extend_from_slice(&n.len_octets); } else { out.extend_from_slice(&minimal_len(content.len())); }
+        }
+        out.extend_from_slice(&content);
+    }
+    out
+}
+
+/// one element of a BER/DER message gets its length re-encoded: long forms of 1..127 octets carrying the real value, its
+/// neighbours, all ones, the top bit, values that make `position + length` wrap around 2^64 or 2^32, the indefinite
+/// form and the reserved octet 0xFF
+pub fn tlv_length_attack(ctx: &mut Ctx, data: &[u8]) -> Option<(Vec<u8>, String)> {
+    let forest = parse_tlvs(data, 0)?;
+    let total = count_tlvs(&forest);
+    if total == 0 { return None; }
+    let target = ctx.choose("tlv_target", total as u64) as usize;
+    // the honest length of the target, for the "real" classes
+    let mut real = 0usize;
+    {
+        let mut c = 0usize;
+        let _ = serialise_tlvs(&forest, target, &[0], false, &mut c, &mut real);
+    }
+    let n = *ctx.pick("tlv_octets", &[1usize, 2, 3, 4, 5, 7, 8, 8, 8, 8, 9, 16, 126, 127]);
+    let class = ctx.choose("tlv_value_class", 10);
+    let (value, cname): (u128, &str) = match class {
+        0 => (real as u128, "real"),
+        1 => (real as u128 + 1, "real+1"),
+        2 => (u128::MAX, "all-ones"),
+        3 => (1u128 << ((8 * n.min(16)) - 1), "top-bit"),
+        4 => ((1u128 << 64) - 1 - ctx.choose("tlv_wrap64", (data.len() + 24) as u64) as u128, "wrap-2^64"),
+        5 => ((1u128 << 32) - 1 - ctx.choose("tlv_wrap32", (data.len() + 24) as u64) as u128, "wrap-2^32"),
+        6 => (data.len() as u128 + ctx.choose("tlv_msglen", 3) as u128, "message-length"),
+        7 => ((1u128 << 63) - 1 + ctx.choose("tlv_2_63", 3) as u128, "2^63"),
+        8 => ((1u128 << 31) - 1 + ctx.choose("tlv_2_31", 3) as u128, "2^31"),
+        _ => (0, "indefinite"),
+    };
+    let hostile: Vec<u8> = if class == 9 {
+        vec![0x80]
+    } else {
+        let mut h = vec![0x80 | n as u8];
+        for i in (0..n).rev() {
+            h.push(if i >= 16 { 0 } else { (value >> (8 * i)) as u8 });
+        }
+        h
+    };
+    let fixup = ctx.chance("tlv_fixup", 3, 4);
+    let mut c = 0usize;
+    let mut r = 0usize;
+    let out = serialise_tlvs(&forest, target, &hostile, fixup, &mut c, &mut r);
+    Some((out, format!("element#{} length as {} octets {}{}", target, if class == 9 { 0 } else { n }, cname, if fixup { " (ancestors fixed)" } else { "" })))
 }
 
 /// field map of an NTLM CHALLENGE_MESSAGE (for C07)
